@@ -328,7 +328,7 @@ def _run(c, d, rebound, drv, open_exe, app_exe, W):
     cutclass = {}
     c.cov["strace"] = strace_check(c, d, W, app_exe, drv, V)
     t_start = time.time()
-    budget = (20 * 60) if c.thorough else 95
+    budget = (20 * 60) if c.thorough else 80
     narch = 200 if c.thorough else 40
     nrand = 0 if c.thorough else 48
     exhaustive_budget = (9 * 60) if c.thorough else 0
